@@ -37,6 +37,9 @@ var c14Pool = []vfIP{
 	{Class: "ipv4", Addr: "10.0.0.1/8", Flags: "F"},
 	{Class: "other-loopback", Addr: "::1/128"},
 	{Class: "gua-flag-mgmt", Addr: "2001:db8::8/64", Flags: "M"},
+	// Half an EUI-64 pattern (only ff, only fe at the marker bytes) is not EUI-64.
+	{Class: "gua-ff-only", Addr: "2001:db8::ff:100:1/64"},
+	{Class: "ula-fe-only", Addr: "fd00::fe00:1/64"},
 }
 
 var c14Static = [][]string{
@@ -206,7 +209,7 @@ func c14Check(c c14Case) [][2]string {
 func TestVerifC14(t *testing.T) {
 	r := ev.Begin("C14", "fold")
 	defer r.End(t)
-	r.Rule = "address lists = all subsets (size<=K) of a 16-address pool covering class {ULA,GUA,LL,other} x stability {flag,EUI-64,plain} x exclusion {deprecated,temporary,tentative,IPv4}, each in all permutations, x 3 static server lists, + failing source; plus all ordered pairs and triples of the pool through betterRDNSS (antisymmetry, transitivity, agreement with the ranking key); non-trivial = >=2 eligible addresses or >=1 eligible + >=1 excluded; distinct = distinct ordered list x static list"
+	r.Rule = "address lists = all subsets (size<=K) of an 18-address pool covering class {ULA,GUA,LL,other} x stability {flag,EUI-64,plain} x exclusion {deprecated,temporary,tentative,IPv4}, each in all permutations, x 3 static server lists, + failing source; plus all ordered pairs and triples of the pool through betterRDNSS (antisymmetry, transitivity, agreement with the ranking key); non-trivial = >=2 eligible addresses or >=1 eligible + >=1 excluded; distinct = distinct ordered list x static list"
 	r.Assumptions = []string{"address source replaced by an injected function (RDNSS.Addrs)"}
 
 	if r.Replay != nil {
